@@ -32,6 +32,7 @@ NOTES = {
     "C17-8": "would have been missed (only generated definitions were probed for `impl Portable`): strengthened before the first run - the autoref probe is applied to 45 concrete library types (FlatString/FlatVec/FlexVec/arrays/PhantomData over native and portable parameters); whatever implements Portable must have alignment 1",
     "C04-8": "would have been missed by the quick tier (no fixed-zoo definition had a zero-sized field with an alignment in the middle): seven such definitions added to the fixed zoo before the first run",
     "C20-8": "would have been missed by the quick tier (no default=true definition had an array of enums whose default is not all-zero bytes): four such definitions added to the fixed zoo before the first run",
+    "C04-9": "MISSED at first (no bare FlatVec in the fixed zoo had an item size larger than the length type's alignment without being a multiple of it; as a struct tail the outer floor hides the change): six such FlatVec shapes added to the fixed zoo, then caught by the C04 table (size_of_val <= slice)",
     "C10-2": "first run reported through a stale oracle parameter (buffer capacity of the case vs. of the oracle); fixed, then caught as the panic it is",
 }
 
